@@ -103,6 +103,8 @@ def run_schedules(task):
                 lines.append({"e": "ret", "t": n, "outcome": outcome, "msg": r["errors"].get(n, "")})
             lines.append({"e": "end", "deadlock": bool(r["deadlock"])})
             out["traces"].append({"script": script, "lines": lines, "skipped": r["skipped"], "realised": r["realised"]})
+            if r["deadlock"]:
+                break  # established: the stuck threads keep their locks, every further script of this task would only wait for the same time-out
     finally:
         out.pop("tree_b", None)
         tracefs.SHARED.discard(tracefs.norm(url))
